@@ -15,7 +15,12 @@ Oracle (implementation alone):
         (d) the same for `CVIART.CVI_match` with all three indices (`<` for Davies-Bouldin); the index of the clause is
             the one the estimator reports (`get_params()["validity"]`) when fit is called;
         (d') the same on estimators whose validity index was changed after construction (attribute assignment,
-            `set_params`, twice, there and back, same value, on a deep copy, after an earlier fit).
+            `set_params`, twice, there and back, same value, on a deep copy, after an earlier fit);
+        (f) data whose common offset is huge relative to its spread (a timestamp-like column ~1.7e9 fed to `iCVI_CH`
+            directly, add/switch sequences; complement-coded rows confined to a band ~1e-8 wide for `iCVIFuzzyART`,
+            offline and online): tracked value = the batch index computed in EXACT rational arithmetic from the same
+            float64 inputs, tolerance = first-order rounding bound of the published recurrences
+            (n_k*sum((v_k-mu)^2), CP_diff), i.e. ~eps*offset/spread; every join strictly improves the exact index.
 """
 from __future__ import annotations
 
@@ -776,6 +781,342 @@ def check_cviart_reconfigured(ctx):
             cov.sample({"CVIART": rep["configured"], "params": p, "mode": mode, "n": n, "labels": labels})
 
 
+# ------------------------------------------------------------------ (f) huge common offset, exact rational reference
+#
+# Data whose common offset is huge relative to its spread (a raw timestamp column around 1.7e9 with readings a few units
+# apart; complement-coded rows confined to a band ~1e-8 wide somewhere inside [0,1]).  The reference value is the batch
+# index computed in EXACT rational arithmetic from the very same float64 inputs, so it depends on no evaluation order.
+# The tolerance is the first-order rounding bound of the PUBLISHED recurrences: the stored means (mu, v_k) have
+# magnitude a_j = max|X[:,j]| and are rounded once per update (absolute error <= eps*a_j each time, <= e_j = (T+1)*eps*a_j
+# after T operations); every quantity the formulas use is a DIFFERENCE of such means / samples (v_k - mu, x - v_k,
+# deltaV), of the size of the data's spread, and enters squared:
+#     BGSS = sum n_k * sum_j (v_kj - mu_j)^2   ->  |dBGSS| <= sum_k n_k sum_j (2|d_kj|*2e_j + (2e_j)^2)
+#     WGSS = sum of <= 2 CP_diff per operation, each three products of two differences of size <= D_j (column range)
+#                                              ->  |dWGSS| <= (#CP_diff) * sum_j (6 D_j e_j + 3 e_j^2)
+# i.e. relative errors of the order eps * offset / spread — NOT eps * (offset / spread)^2, which is what an evaluation
+# through |v|^2 - 2 v.mu + |mu|^2 (or sum x^2 - n v^2) would have.  Cases for which even this bound exceeds
+# OFFSET_TOL_CAP are not judged (counted as ill-conditioned for the published formula).
+
+EPS = 2.0 ** -52
+OFFSET_TOL_CAP = 1e-2
+
+
+def _exact_stats(X, labels):
+    """Exact (integer / rational) batch statistics of the labelled float64 data.
+    returns dict(N, k, B, W, ch, cl) with B, W, ch Fractions (ch = 0 while undefined: k < 2 or W = 0) and
+    cl = {label: (n_k, [v_kj - mu_j as float])}"""
+    rows = [[float(v) for v in row] for row in X]
+    labels = [int(t) for t in labels]
+    N = len(rows)
+    d = len(rows[0]) if rows else 0
+    E = 0
+    for row in rows:
+        for v in row:
+            E = max(E, v.as_integer_ratio()[1].bit_length() - 1)
+    sc = 1 << E
+    I = []
+    for row in rows:
+        ir = []
+        for v in row:
+            p, q = v.as_integer_ratio()
+            ir.append(p * (sc // q))
+        I.append(ir)
+    S = [sum(r[j] for r in I) for j in range(d)]
+    sums, cnt = {}, {}
+    sq = 0
+    for r_, l in zip(I, labels):
+        s = sums.setdefault(l, [0] * d)
+        for j in range(d):
+            s[j] += r_[j]
+            sq += r_[j] * r_[j]
+        cnt[l] = cnt.get(l, 0) + 1
+    k = len(cnt)
+    per = sum(Fraction(sum(s[j] * s[j] for j in range(d)), cnt[l]) for l, s in sums.items())
+    W = (sq - per) / (sc * sc)
+    B = (per - Fraction(sum(t * t for t in S), N)) / (sc * sc) if N else Fraction(0)
+    cl = {}
+    for l, s in sums.items():
+        cl[l] = (cnt[l], [float((Fraction(s[j], cnt[l]) - Fraction(S[j], N)) / sc) for j in range(d)])
+    if k < 2 or W == 0:
+        ch = Fraction(0)
+    else:
+        ch = B / W * Fraction(N - k, k - 1)
+    return dict(N=N, k=k, B=B, W=W, ch=ch, cl=cl)
+
+
+def _offset_tol(X, st, n_updates: int, n_cpdiff: int):
+    """relative tolerance for criterion_value from the conditioning of the published recurrences (see above);
+    None when the index is undefined or the bound is not informative"""
+    if st["k"] < 2 or st["W"] == 0 or st["B"] == 0:
+        return None
+    A = np.abs(np.asarray(X, dtype=float))
+    Xa = np.asarray(X, dtype=float)
+    a = A.max(axis=0)
+    D = Xa.max(axis=0) - Xa.min(axis=0)
+    e = (n_updates + 1) * EPS * a
+    dB = 0.0
+    for (nk, dk) in st["cl"].values():
+        dB += nk * float(np.sum(2.0 * np.abs(np.array(dk)) * 2.0 * e + (2.0 * e) ** 2))
+    dW = max(1, n_cpdiff) * float(np.sum(6.0 * D * e + 3.0 * e ** 2))
+    relB = dB / float(st["B"])
+    relW = dW / float(st["W"])
+    if relW >= 0.5:
+        return None
+    tol = (1.0 + relB) / (1.0 - relW) - 1.0 + 64 * EPS
+    return tol if tol <= OFFSET_TOL_CAP else None
+
+
+def _offset_close(tracked: float, st, tol: float) -> bool:
+    ex = st["ch"]
+    t = float(tracked)
+    if t != t:
+        return False
+    return abs(Fraction(t) - ex) <= Fraction(tol) * abs(ex)
+
+
+OFFSETS = [1.7e9, 1.7e9, 1.7e9, 1.6e9, 1.0e8, 4.0e9, -2.5e8, 1.0e10, 6.3e7]
+
+
+def gen_offset_sequence(r, nops: int):
+    """(d, ops, info): readings a few units apart around 2..4 centres, one column (sometimes all) riding on a
+    timestamp-like offset; adds (labels mostly = the centre) interleaved with permitted switch_label operations"""
+    d = r.randint(1, 3)
+    big = [False] * d
+    big[r.randrange(d)] = True
+    if r.random() < 0.3:
+        big = [True] * d
+    off = [r.choice(OFFSETS) if big[j] else r.choice([0.0, 20.0, 0.5, -3.0]) for j in range(d)]
+    unit = [r.choice([1.0, 1.0, 0.125, 30.0]) if big[j] else r.choice([1.0, 0.05]) for j in range(d)]
+    k = r.randint(2, 4)
+    centres = [[r.uniform(0.0, 12.0) for _ in range(d)] for _ in range(k)]
+    sd = r.choice([0.5, 1.0, 1.0, 2.0])
+    data, ops = [], []
+    for t in range(nops):
+        if len(data) >= 4 and r.random() < 0.3:
+            i = r.randrange(len(data))
+            x, lo = data[i]
+            cnt = sum(1 for (_, l) in data if l == lo)
+            if cnt < 2:
+                continue
+            ln = r.randrange(k) if r.random() < 0.85 else k + r.randint(0, 1)
+            data[i] = (x, ln)
+            ops.append(("s", lo, ln, x))
+        else:
+            c = r.randrange(k)
+            x = [off[j] + unit[j] * (centres[c][j] + r.gauss(0.0, sd)) for j in range(d)]
+            l = c if (t < k or r.random() < 0.85) else r.randrange(k)
+            if t < k:
+                l = t      # every centre is opened early
+                x = [off[j] + unit[j] * (centres[t][j] + r.gauss(0.0, sd)) for j in range(d)]
+            data.append((x, l))
+            ops.append(("a", l, x))
+    return d, ops, {"offset": off, "unit": unit}
+
+
+def _ops_replay(ops):
+    return [[o[0], o[1], [repr(v) for v in o[2]]] if o[0] == "a" else [o[0], o[1], o[2], [repr(v) for v in o[3]]] for o in ops]
+
+
+def check_offset_sequences(ctx):
+    """(f1) iCVI_CH driven directly on raw measurements with a timestamp-like column: after EVERY add_sample /
+    switch_label the tracked value equals the exact batch index of the current labelled data"""
+    from artlib.cvi.iCVIs.CalinkskiHarabasz import iCVI_CH
+    cov = ctx.cov
+    N = ctx.scale(36, 400)
+    maxops = ctx.scale(30, 60)
+    for i in range(N):
+        r = gen.rng_for(ctx.seed, "C15-offset-seq", i)
+        d, ops, info = gen_offset_sequence(r, r.randint(6, maxops))
+        key = ("offset-seq", d, [(o[0], o[1], tuple(o[-1])) for o in ops])
+        data = []
+        judged = 0
+        n_upd = n_cp = 0
+        try:
+            with quiet():
+                ic = iCVI_CH(np.array(ops[0][2], dtype=float))
+            for j, op in enumerate(ops):
+                if op[0] == "a":
+                    _, l, x = op
+                    with quiet():
+                        ic.update(ic.add_sample(np.array(x, dtype=float), l))
+                    data.append([x, l])
+                    n_upd += 1
+                    n_cp += 1
+                else:
+                    _, lo, ln, x = op
+                    with quiet():
+                        ic.update(ic.switch_label(np.array(x, dtype=float), lo, ln))
+                    for row in data:
+                        if row[1] == lo and row[0] == x:
+                            row[1] = ln
+                            break
+                    n_upd += 1
+                    n_cp += 2
+                X = [row[0] for row in data]
+                labs = [row[1] for row in data]
+                crit = float(ic.criterion_value)
+                st = _exact_stats(X, labs)
+                opname = "switch_label" if op[0] == "s" else "add_sample"
+                rep = {"dim": d, "offset": info["offset"], "ops": _ops_replay(ops[: j + 1]), "X": X, "labels": labs}
+                if st["k"] >= 2 and st["W"] == 0:
+                    cov.hit("offset-seq:exact-WGSS==0")
+                    if crit != 0.0:
+                        cov.hit("F26")
+                        ctx.issue("violation", F26_SIG % opname,
+                                  f"offset data: after op {j} ({opname}) every cluster is a single point (exact WGSS = 0, index 0 "
+                                  f"by convention) but criterion_value={crit!r} WGSS={float(ic.WGSS)!r}", rep)
+                        break
+                    continue
+                if st["k"] < 2:
+                    if crit != 0.0:
+                        ctx.issue("violation", f"iCVI_CH.{opname}:criterion_value != 0 with fewer than 2 clusters",
+                                  f"offset data: after op {j} criterion_value={crit!r} with {st['k']} cluster(s)", rep)
+                        break
+                    continue
+                tol = _offset_tol(X, st, n_upd, n_cp)
+                if tol is None:
+                    cov.hit("offset-seq:ill-conditioned-for-the-published-formula(not judged)")
+                    continue
+                judged += 1
+                cov.hit("offset-seq:judged:" + opname)
+                if not _offset_close(crit, st, tol):
+                    ex = float(st["ch"])
+                    ctx.issue("violation", f"iCVI_CH.{opname}:criterion_value != exact batch index on data with a huge common offset",
+                              f"after op {j} ({opname}) of a sequence on readings around offset {info['offset']} criterion_value="
+                              f"{crit!r} but the exact (rational) Calinski-Harabasz index of the labelled data is {ex!r} "
+                              f"(relative error {abs(crit - ex) / abs(ex):.3g}, rounding bound of n_k*sum((v_k-mu)^2) / "
+                              f"the CP recurrences: {tol:.3g})", rep)
+                    break
+        except Exception as e:
+            ctx.issue("violation", f"iCVI_CH:{exc_enum(e)}:offset data", f"permitted op sequence raised {e!r}",
+                      {"dim": d, "ops": _ops_replay(ops)})
+            cov.case(key, False)
+            continue
+        cov.hit("offset-seq:run")
+        cov.case(key, judged > 0)
+        if i < 1:
+            cov.sample({"offset-seq": info, "dim": d, "nops": len(ops), "judged": judged, "crit": float(ic.criterion_value)})
+
+
+def _band_rows(r, n: int, d: int):
+    """rows of [0,1]^d confined to a band `scale`*~40 wide around a base point (a scaler calibrated on a far wider
+    range than the data occupy): 2..3 centres 30*scale apart, jitter ~scale"""
+    scale = r.choice([3e-10, 3e-10, 1e-9, 3e-9, 1e-8])
+    base = [r.choice([0.5, 0.5, 0.25, 0.7, 0.4375]) for _ in range(d)]
+    k = r.randint(2, 3)
+    centres = [[r.choice([0.0, 30.0, -30.0, 15.0]) for _ in range(d)] for _ in range(k)]
+    rows = []
+    for _ in range(n):
+        c = r.choice(centres)
+        rows.append([base[j] + scale * (c[j] + r.gauss(0.0, 1.0)) for j in range(d)])
+    return np.array(rows, dtype=float).reshape(n, d), scale
+
+
+def check_offset_icvi_fuzzy(ctx):
+    """(f2) iCVIFuzzyART (offline and online) on complement-coded rows confined to a very narrow band: after fit the
+    tracked value equals the exact index of (X, labels_); every sample that joined an existing category made the exact
+    index of the labelling strictly larger than before its step (up to the rounding bound of the two tracked values)"""
+    cov = ctx.cov
+    N = ctx.scale(24, 240)
+    nmax = ctx.scale(24, 40)
+    for i in range(N):
+        r = gen.rng_for(ctx.seed, "C15-offset-icvifuzzy", i)
+        d = r.randint(1, 2)
+        n = r.randint(8, nmax)
+        offline = (i % 2 == 1)
+        P, scale = _band_rows(r, n, d)
+        X = gen.cc(P)
+        rho = r.choice([1.0 - 7 * scale, 1.0 - 7 * scale, 1.0 - 20 * scale, 1.0 - 60 * scale, 0.5])
+        p = {"rho": rho, "alpha": r.choice([1e-7, 1e-3]), "beta": r.choice([1.0, 1.0, 0.5])}
+        key = ("offset-icvifuzzy", repr(p), offline, X.tolist())
+        rep = {"params": p, "offline": offline, "band": scale, "X": X}
+        try:
+            with quiet():
+                m = iCVIFuzzyART(p["rho"], p["alpha"], p["beta"], validity=iCVIFuzzyART.CALINSKIHARABASZ, offline=offline)
+                m.fit(X)
+        except Exception as e:
+            ctx.issue("violation", f"iCVIFuzzyART.fit:{exc_enum(e)}:{'offline' if offline else 'online'}:narrow band",
+                      f"fit raised {e!r} on validated data", rep)
+            cov.case(key, False)
+            continue
+        L = [int(t) for t in m.labels_]
+        crit = float(m.iCVI.criterion_value)
+        tag = "offline" if offline else "online"
+        cov.hit("offset-icvifuzzy:" + tag)
+        st = _exact_stats(X, L)
+        n_upd = 2 * n if offline else n
+        n_cp = 3 * n if offline else n
+        judged = False
+        if st["k"] >= 2 and st["W"] == 0:
+            cov.hit("offset-icvifuzzy:exact-WGSS==0")
+            if crit != 0.0:
+                cov.hit("F26")
+                ctx.issue("violation", F26_SIG % ("switch_label" if offline else "add_sample"),
+                          f"narrow band: exact WGSS = 0 after fit but criterion_value={crit!r}", dict(rep, labels=L))
+        elif st["k"] < 2:
+            cov.hit("offset-icvifuzzy:one-cluster")
+            if crit != 0.0:
+                ctx.issue("violation", f"iCVIFuzzyART.fit:{tag}:tracked value != 0 with one cluster",
+                          f"criterion_value={crit!r}, labels={L}", dict(rep, labels=L))
+        else:
+            tol = _offset_tol(X, st, n_upd, n_cp)
+            if tol is None:
+                cov.hit("offset-icvifuzzy:ill-conditioned-for-the-published-formula(not judged)")
+            else:
+                judged = True
+                cov.hit("offset-icvifuzzy:judged:" + tag)
+                if not _offset_close(crit, st, tol):
+                    ex = float(st["ch"])
+                    ctx.issue("violation", f"iCVIFuzzyART.fit:{tag}:tracked value != exact CH(X, labels_) on a narrow band",
+                              f"rows confined to a band ~{40 * scale:.1g} wide: after fit criterion_value={crit!r} but the exact "
+                              f"(rational) index of (X, labels_) is {ex!r} (relative error {abs(crit - ex) / abs(ex):.3g}, "
+                              f"rounding bound {tol:.3g}); labels={L}", dict(rep, labels=L))
+        # ---- gate: the labelling before step i and after it (one epoch: categories are opened in order)
+        for s in range(1, n):
+            nc = max(L[:s]) + 1
+            c = L[s]
+            if c >= nc:
+                cov.hit("offset-gate:new-category")
+                continue
+            if offline:
+                lb = L[:s] + [0] * (n - s)
+                la = list(lb)
+                la[s] = c
+                Xb = Xa = X
+                ub, ua, cb, ca = n + 2 * s, n + 2 * s + 2, n + 2 * s, n + 2 * s + 2
+            else:
+                Xb, lb = X[:s], L[:s]
+                Xa, la = X[: s + 1], L[: s + 1]
+                ub = cb = s
+                ua = ca = s + 1
+            sb, sa = _exact_stats(Xb, lb), _exact_stats(Xa, la)
+            if sa["ch"] > sb["ch"]:
+                cov.hit("offset-gate:joined-existing:strictly-better(exact)")
+                continue
+            tb = _offset_tol(Xb, sb, ub, cb) if sb["ch"] != 0 else 0.0
+            ta = _offset_tol(Xa, sa, ua, ca) if sa["ch"] != 0 else 0.0
+            if tb is None or ta is None:
+                cov.hit("offset-gate:ill-conditioned-for-the-published-formula(not judged)")
+                continue
+            slack = Fraction(tb) * abs(sb["ch"]) + Fraction(ta) * abs(sa["ch"])
+            if sb["ch"] - sa["ch"] <= slack:
+                cov.hit("offset-gate:float-ambiguous")
+                continue
+            if (sb["k"] >= 2 and sb["W"] == 0) or (sa["k"] >= 2 and sa["W"] == 0):
+                cov.hit("F26")
+                ctx.issue("violation", F26_SIG % ("switch_label" if offline else "add_sample"),
+                          f"narrow band: gate of sample {s} -> {c} decided while the exact WGSS is 0 "
+                          f"(exact index {float(sb['ch'])!r} -> {float(sa['ch'])!r})", dict(rep, labels=L, sample=s))
+                continue
+            ctx.issue("violation", f"iCVIFuzzyART.fit:{tag}:joined existing category without improving the exact index on a narrow band",
+                      f"sample {s} joined the existing category {c} although the exact index of the labelling went "
+                      f"{float(sb['ch'])!r} -> {float(sa['ch'])!r} (rounding bounds {tb:.3g}, {ta:.3g}); labels={L}",
+                      dict(rep, labels=L, sample=s))
+            break
+        cov.case(key, judged)
+        if i < 1:
+            cov.sample({"offset-icvifuzzy": p, "offline": offline, "band": scale, "n": n, "labels": L, "crit": crit})
+
 
 def prepare(ctx):
     """Translator tie (see gen_tie.py): the source of this slice is re-translated to Lean on every run
@@ -794,3 +1135,5 @@ def run(ctx):
     check_icvi_fuzzy(ctx)
     check_cviart(ctx)
     check_cviart_reconfigured(ctx)
+    check_offset_sequences(ctx)
+    check_offset_icvi_fuzzy(ctx)
